@@ -7,24 +7,5 @@ Proof. reflexivity. Qed.
 Definition HIERARCHY_LIMIT : nat := 10.
 Lemma pin_hierarchy_limit_ok : pin_hierarchy_limit = HIERARCHY_LIMIT.
 Proof. reflexivity. Qed.
-Lemma pin_body_rm_ok :
-  pin_body_rm_get_or_create_role = frozen_rm_get_or_create_role /\
-  pin_body_rm_matched_domains = frozen_rm_matched_domains /\
-  pin_body_rm_domain_has_role = frozen_rm_domain_has_role /\
-  pin_body_rm_clear = frozen_rm_clear /\
-  pin_body_rm_add_link = frozen_rm_add_link /\
-  pin_body_rm_delete_link = frozen_rm_delete_link /\
-  pin_body_rm_has_link = frozen_rm_has_link /\
-  pin_body_rm_get_roles = frozen_rm_get_roles /\
-  pin_body_rm_get_users = frozen_rm_get_users /\
-  pin_body_rm_bfs_new = frozen_rm_bfs_new /\
-  pin_body_rm_bfs_next = frozen_rm_bfs_next /\
-  pin_body_rm_bfs_update_depth = frozen_rm_bfs_update_depth /\
-  pin_body_rm_bfs_iterator = frozen_rm_bfs_iterator.
-Proof. repeat split; reflexivity. Qed.
-(* the matching-function part (Model/RoleGraphM.v) *)
-Lemma pin_body_rm_matching_ok :
-  pin_body_rm_link_if_matches = frozen_rm_link_if_matches /\
-  pin_body_rm_matching_fn = frozen_rm_matching_fn /\
-  pin_body_rm_new = frozen_rm_new.
-Proof. repeat split; reflexivity. Qed.
+(* the function bodies of the file are not hash-pinned any more: they are translated every run
+   (tools/rs2coq_rm.py -> Gen/RoleManagerGen.v) and proved equal to the model in PcRoleManagerGen.v *)
